@@ -1439,6 +1439,8 @@ func (r *run) execValue(fr *frame, cur *node, in ssa.Value) *node {
 		for _, b := range x.Bindings {
 			fv.Bindings = append(fv.Bindings, cur.val(b))
 		}
+		// identity of this closure value when it is handed to code that treats it as an opaque function
+		fv.Opaque = c.Fresh("closure$"+x.Fn.Name(), smt.Int)
 		cur.vals[x] = fv
 	case *ssa.MakeMap:
 		ref := r.newRef(cur)
